@@ -2,7 +2,7 @@
 # Build everything the checks need, offline, from files on disk (sources under /repo, harness under /verif).
 set -e
 cd "$(dirname "$0")/build"
-make -j16 -s FLAVOUR=plain f8c
+make -j16 -s FLAVOUR=plain f8c fxc
 make -j16 -s FLAVOUR=asan fx
 make -j16 -s FLAVOUR=tsan fx
 echo "setup ok"
